@@ -37,6 +37,7 @@ QUICK = [
     _c('orderbook_mask', 'orderbook', dict(T=3), ('mask', [0, 0, 1])),
     _c('periodic_contract_mask', 'periodic', dict(T=4, kind='contract'), ('mask', [0, 0, 1, 0])),
     _c('scaled_mask_first_step', 'scaled', dict(T=3, base='storage'), ('mask', [1, 0, 0])),
+    _c('scaled_periodic_base_first_step', 'scaled', dict(T=5, base='periodic_contract'), ('mask', [1, 0, 0, 0, 0])),
     _c('scaled_mask_later_step', 'scaled', dict(T=3, base='transport'), ('mask', [0, 0, 1])),
 ]
 THOROUGH = QUICK + [
